@@ -24,6 +24,10 @@ EXTRA = [
     "x = 0\nc = 1\nwhile c == 1 && x < 2:\n    c = Bernoulli(1/2)\n    x = x + c\n    x = x*1\nend\n",
     "types\n    y : Finite(0, 1)\nend\ny = 0\nc = 1\nwhile c == 1:\n    c = Bernoulli(1/2)\n    y = 1 - y\n    y = y {1/2} 1 - y\n    y = y*y\nend\n",
     "c = 0\nx = 2\nwhile true:\n    c = DiscreteUniform(0, 2)\n    x = c\n    x = x*x\n    x = x - c\nend\n",
+    # backward copy chains lagging behind an unbounded / a slowly growing variable (fixed-point budget)
+    "s = 0\nw = 0\nz = 0\ny = 0\nx = 0\nwhile true:\n    s = w\n    w = z\n    z = y\n    y = x\n    x = x + 1 {1/2} x\nend\n",
+    "w = 0\nz = 0\ny = 0\nx = 0\nc = 0\nwhile true:\n    w = z\n    z = y\n    y = x\n    x = c\n    c = DiscreteUniform(0, 2)\nend\n",
+    "z = 0\ny = 0\nx = 0\nwhile true:\n    z = y\n    y = x\n    x = 1 - x\nend\n",
     "c = 1\nx = 5\nwhile c == 1:\n    x = 1\n    c = 0\n    x = x + 1\n    x = x + 1\nend\n",
 ]
 
@@ -36,14 +40,15 @@ def rule(tier):
 
 def bounds(tier):
     return {"depth_N": 4 if tier == "quick" else 6, "fixpoint_cap": 20000,
-            "type_fp_iterations": [100] if tier == "quick" else [100, 1, 2]}
+            "type_fp_iterations": "100 and 1 for every program; 2 and 3 for the seeds and the first 60 programs (quick) / all (thorough)"}
 
 
 def cases(tier, seed):
     out = []
     N = 4 if tier == "quick" else 6
-    its = [100] if tier == "quick" else [100, 1, 2]
-    for text in EXTRA + base_programs(tier):
+    progs = EXTRA + base_programs(tier)
+    for i, text in enumerate(progs):
+        its = [100, 1, 2, 3] if (tier != "quick" or i < len(EXTRA) + 60) else [100, 1]
         for it in its:
             out.append({"input": {"text": text, "type_fp_iterations": it}, "N": N})
     return out
